@@ -5,7 +5,7 @@ use buffer_redux::BufReader;
 use byteorder::{BigEndian, ByteOrder};
 use nom::{
     branch::alt,
-    bytes::streaming::{tag, take, take_until, take_until1},
+    bytes::streaming::{tag, take, take_until},
     character::streaming::{digit1, line_ending, not_line_ending, space0},
     combinator::{complete, map, map_res, opt, success, value},
     multi::many0,
@@ -189,17 +189,31 @@ fn armor_header_line(i: &[u8]) -> IResult<&[u8], BlockType> {
     .parse(i)
 }
 
+/// Parses the key of a key value pair: it ends at the first `": "` of the line,
+/// or at a `':'` that ends the line (value-less header).
+fn header_key(i: &[u8]) -> IResult<&[u8], &[u8]> {
+    // only look at the current line, a separator on a later line does not belong to this key
+    let Some(line_len) = i.iter().position(|b| *b == b'\n') else {
+        return Err(nom::Err::Incomplete(nom::Needed::Unknown));
+    };
+    let line = i[..line_len].strip_suffix(b"\r").unwrap_or(&i[..line_len]);
+
+    let key_len = match line.windows(2).position(|w| w == b": ") {
+        Some(pos) => Some(pos),
+        None => line.strip_suffix(b":").map(|key| key.len()),
+    };
+    match key_len {
+        Some(len) if len > 0 => Ok((&i[len..], &i[..len])),
+        _ => Err(nom::Err::Error(nom::error::Error::new(
+            i,
+            nom::error::ErrorKind::TakeUntil,
+        ))),
+    }
+}
+
 /// Parses a single key value pair, for the header.
 fn key_value_pair(i: &[u8]) -> IResult<&[u8], (&str, &str)> {
-    let (i, key) = map_res(
-        alt((
-            complete(take_until1(":\r\n")),
-            complete(take_until1(":\n")),
-            complete(take_until1(": ")),
-        )),
-        str::from_utf8,
-    )
-    .parse(i)?;
+    let (i, key) = map_res(header_key, str::from_utf8).parse(i)?;
 
     // consume the ":"
     let (i, _) = tag(":")(i)?;
